@@ -345,6 +345,7 @@ class FnTr:
         self.tmp = 0
         self.ret_ty, self.ret_types = None, []
         self.locals = set(assigned_names(fn.body)) | {a.arg for a in fn.args.args}
+        self.aux = {}                 # name -> lines of an auxiliary definition (one per top-level joining `if` / `for`)
 
     def fresh(self):
         self.tmp += 1
@@ -410,6 +411,7 @@ class FnTr:
 
         def run():
             self.tmp = 0
+            self.aux = {}
             return self.stmts(list(self.fn.body), dict(env0), self.fallthrough)
         self.ret_ty, self.ret_types = None, []
         run()
@@ -422,8 +424,11 @@ class FnTr:
         lines = run()
         plist = " ".join("(%s : %s%s)" % (ident(n), lean_type(t), "" if d is None else " := %s" % d)
                          for n, t, d in params)
-        out = ["/-- `util.%s` (mir_eval/util.py) -/" % self.fn.name,
-               "def %s %s : Py %s := do" % (ident(self.fn.name), plist, lean_type(rt))]
+        out = []
+        for a in self.aux.values():
+            out += a + [""]
+        out += ["/-- `util.%s` (mir_eval/util.py) -/" % self.fn.name,
+                "def %s %s : Py %s := do" % (ident(self.fn.name), plist, lean_type(rt))]
         out += indent(lines)
         return Sig(self.fn.name, params, rt), out
 
@@ -651,23 +656,50 @@ class FnTr:
             if not vals:
                 return ["pure ()"]
             return ["pure (%s)" % ", ".join(vals)] if len(vals) > 1 else ["pure %s" % vals[0]]
+        jt = TUP([t for _, t, _ in joined]) if len(joined) > 1 else (joined[0][1] if joined else NONE)
         lines = self.branch(s, env, lambda e: self.stmts(s.body, e, k_join), lambda e: self.stmts(s.orelse, e, k_join),
-                            ret=TUP([t for _, t, _ in joined]) if len(joined) > 1 else (joined[0][1] if joined else NONE))
+                            ret=jt)
         env2 = dict(env)
         for n in names:
             env2.pop(n, None)
         for n, t, owned in joined:
             env2[n] = Var(t, ident(n), owned=owned)
         if not joined:
-            head = "let _ : Unit ← (do"
+            head = "let _ : Unit ← "
         elif len(joined) == 1:
-            head = "let %s : %s ← (do" % (ident(joined[0][0]), lean_type(joined[0][1]))
+            head = "let %s : %s ← " % (ident(joined[0][0]), lean_type(joined[0][1]))
         else:
-            head = "let (%s) : %s ← (do" % (", ".join(ident(n) for n, _, _ in joined),
-                                           lean_type(TUP([t for _, t, _ in joined])))
-        lines = [head] + indent(lines)
-        lines[-1] += ")"
+            head = "let (%s) : %s ← " % (", ".join(ident(n) for n, _, _ in joined),
+                                        lean_type(TUP([t for _, t, _ in joined])))
+        blk = self.block(s, env, lines, jt)
+        if blk is not None:
+            lines = [head + blk]
+        else:
+            lines = [head + "(do"] + indent(lines)
+            lines[-1] += ")"
         return lines + self.stmts(rest, env2, k)
+
+    def block(self, s, env, lines, ty):
+        """a top-level compound statement of the function body is emitted as an auxiliary definition
+        `<f>_block<k>` (k = its 1-based position among the top-level `if` / `for` statements) over the locals it reads,
+        in the order of their first occurrence; returns the call, or None when the statement is nested"""
+        tops = [x for x in self.fn.body if isinstance(x, (ast.If, ast.For))]
+        if not any(s is x for x in tops):
+            return None
+        reads = sorted((nd for nd in ast.walk(s) if isinstance(nd, ast.Name) and nd.id in env),
+                       key=lambda nd: (nd.lineno, nd.col_offset))
+        names = []
+        for nd in reads:
+            if nd.id not in names:
+                names.append(nd.id)
+        if any(env[n].term != ident(n) for n in names):
+            return None
+        name = "%s_block%d" % (self.fn.name, 1 + [i for i, x in enumerate(tops) if x is s][0])
+        plist = " ".join("(%s : %s)" % (ident(n), lean_type(env[n].ty)) for n in names)
+        self.aux[name] = ["/-- lines %d-%d of `util.%s`: the statement `%s ...` as a function of the locals it reads -/" % (
+            s.lineno, s.end_lineno, self.fn.name, ast.unparse(s).split("\n")[0][:80]),
+            "def %s %s : Py %s := do" % (ident(name), plist, lean_type(ty))] + indent(lines)
+        return "%s %s" % (ident(name), " ".join(ident(n) for n in names))
 
     def branch(self, s, env, then_lines, else_lines, ret=None):
         """the lines of `if <test> then <then> else <else>` with None-narrowing; `then_lines(env)` / `else_lines(env)`
